@@ -321,6 +321,13 @@ class BadParams:
         raise RuntimeError("bad params %d" % self.k)
 
 
+def op_coq(op):
+    """an operation: one event tuple (send) or ('burst', [events]) (send_events)"""
+    if op[0] == "burst":
+        return cl(ev_coq(e) for e in op[1])
+    return cl([ev_coq(op)])
+
+
 def ev_coq(ev):
     """ev = (type, kind, tag); kind = 'plain' | 'after' | ('done', src)"""
     ty, kind, tag = ev
@@ -526,7 +533,7 @@ def random_machine(rng: random.Random, max_nodes=10, max_depth=4, features=None)
                 out.append(("mark", next(mark)))
             elif r < 0.75 and f["assign"]:
                 out.append(("assign", rng.randint(0, 2), rng.randint(0, 3)))
-            elif r < 0.88 and f["raises"]:
+            elif r < 0.83 and f["raises"]:
                 out.append(("raise", rng.choice(events), rng.randint(1, 9)))
             elif f["faults"]:
                 out.append(rng.choice([("fail", next(mark)), ("bad", next(mark)), ("missing", next(mark))]))
